@@ -35,7 +35,9 @@ CONSTANTS Peers,        \* lifecycle peers, e.g. {"p1"} or {"p1", "p2"}
           DevD5,        \* TRUE: peerExtensions entry of a pre-v1.3 peer survives the inbound close
           DevD6,        \* TRUE: GRAFT is admitted although the sender has no outbound stream (gs.peers)
           DevD7,        \* TRUE: pubsub:<topic> protection survives the removal from the mesh on outbound close
-          DevD14        \* TRUE: a verdict leaving validation when no stream is left recreates gater stats
+          DevD14,       \* TRUE: a verdict leaving validation when no stream is left recreates gater stats
+          DevGiveUp     \* TRUE (a seeded variant, not the code as found): handleDeadPeers stores the respawned writer's queue in
+                        \*       pubsub.peers BEFORE asking the dead-peer backoff, so that it stays when the backoff gives the peer up
 
 VARIABLES ps,           \* ps[p] = per-peer record (see InitPeer)
           router,       \* router of the node under test
@@ -93,7 +95,8 @@ InitPeer(proto, pos) ==
      bl   |-> FALSE,     \* blacklisted
      proto |-> proto,
      pos  |-> pos,       \* score > 0: forgotten at disconnect; otherwise retained for RetainScore
-     att  |-> 0,         \* upper bound of the dead-peer backoff attempts used up (outbound streams that died)
+     attLo |-> 0,        \* dead-peer backoff attempts used up for certain (outbound streams that died on a live connection)
+     attHi |-> 0,        \* ... and at most (a plain disconnect counts when the node sees the stream die before the connection)
      slow |-> FALSE,     \* a message of the peer is still in validation
      subs |-> {},        \* topics the peer announced (pubsub.topics)
      K    |-> {},        \* MAY set over Containers \ {pubsub.topics}
@@ -139,7 +142,8 @@ Pre(s, e, k) ==
     CASE e = "ConnUp"    -> ~s.conn
       [] e = "OutUp"     -> s.out = "pend"
       [] e = "OutFail"   -> s.out = "pend"
-      [] e = "OutReset"  -> s.out = "up" /\ s.att < MaxRespawns     \* (generated lifecycles stay within the respawn budget)
+      \* (generated lifecycles avoid a reset whose outcome - respawn or give-up - hinges on the disconnect race above)
+      [] e = "OutReset"  -> s.out = "up" /\ (s.attHi < MaxRespawns \/ s.attLo >= MaxRespawns)
       [] e = "InUp"      -> s.conn /\ ~s.inb
       [] e = "InDup"     -> s.inb
       [] e = "InReset"   -> s.inb
@@ -175,9 +179,10 @@ SendEv(s, k) ==
 \* handlePeerDead -> handleDeadPeers; still connected: the writer is respawned with backoff - unless the peer has used up
 \* its backoff attempts (backoff.go), in which case the node gives the peer up until the next connection
 OutResetEv(s, respawn) ==
-    LET s1 == [OutDown(s) EXCEPT !.att = @ + 1] IN
+    LET s1 == [OutDown(s) EXCEPT !.attLo = @ + 1, !.attHi = @ + 1] IN
     IF respawn THEN [Add(s1, {"pubsub.peers", "pubsub.deadPeerBackoff"}) EXCEPT !.out = "pend"]
-               ELSE [Add(s1, {"pubsub.deadPeerBackoff"}) EXCEPT !.out = "none"]
+               ELSE \* given up: no queue, no writer, nothing in flight (intended; DevGiveUp leaves the queue behind)
+                    [Add(s1, {"pubsub.deadPeerBackoff"} \cup (IF DevGiveUp THEN {"pubsub.peers"} ELSE {})) EXCEPT !.out = "none"]
 
 PeerEv(s, e, k) ==
     CASE e = "ConnUp"   -> \* identify completes -> handlePendingPeers: queue + NewStream in flight (not for a blacklisted peer)
@@ -187,7 +192,7 @@ PeerEv(s, e, k) ==
             [Add(s, OutUpKeys \cup (IF s.proto = "v13" THEN {CSent} ELSE {})) EXCEPT !.out = "up"]
       [] e = "OutFail"  -> \* newPeerError
             [Del(s, {"pubsub.peers"}) EXCEPT !.out = "failed"]
-      [] e = "OutReset" -> OutResetEv(s, TRUE)
+      [] e = "OutReset" -> OutResetEv(s, s.attHi < MaxRespawns)      \* the 5th death within the TTL is not respawned
       [] e = "InUp"     -> [Add(s, {"pubsub.inboundStreams"}) EXCEPT !.inb = TRUE]
       [] e = "InDup"    -> InDown(s, FALSE)        \* the replaced stream's handler reports ClosedStream
       [] e \in {"InReset", "InEOF"} -> [InDown(s, TRUE) EXCEPT !.inb = FALSE]
@@ -198,7 +203,8 @@ PeerEv(s, e, k) ==
       [] e = "ConnDown" ->
             \* (the node may see its stream die before the connection is reported closed: handleDeadPeers then
             \*  records a dead-peer backoff entry and respawns the writer, whose NewStream fails)
-            LET s1 == IF s.out = "up" THEN [Add(OutDown(s), {"pubsub.deadPeerBackoff"}) EXCEPT !.att = @ + 1]
+            LET s1 == IF s.out = "up" THEN [Add(OutDown(s), {"pubsub.deadPeerBackoff"}) EXCEPT !.attHi = @ + 1]
+                                      ELSE IF DevGiveUp /\ s.out = "none" THEN s     \* (nothing ever removes a queue left behind)
                                       ELSE Del(s, {"pubsub.peers"})
                 s2 == [s1 EXCEPT !.out = "none"]
                 s3 == IF s.inb THEN InDown(s2, TRUE) ELSE s2
@@ -258,6 +264,20 @@ Next ==
 
 Spec == Init /\ [][Next]_vars
 
+\* The respawn budget needs 12 events (ConnUp OutUp (OutReset OutUp)x4 OutReset ConnDown): a second machine over a small
+\* alphabet whose lifecycles march straight to the third death of the outbound stream and branch only from there on.
+RespawnKinds == {"graft", "sub1", "idontwant"}
+NextR ==
+    \/ /\ ~elapsed /\ Len(hist) < MaxLen
+       /\ \E p \in Peers :
+            LET late == ps[p].attLo >= MaxRespawns - 1 IN
+            \/ Len(hist) = 0 /\ DoPeer(p, "ConnUp", "")
+            \/ \E e \in {"OutUp", "OutReset", "ConnDown"} : DoPeer(p, e, "")
+            \/ late /\ \E e \in {"InUp", "InReset", "OutFail"} : DoPeer(p, e, "")
+            \/ late /\ \E k \in RespawnKinds : DoPeer(p, "Send", k)
+    \/ Elapse
+SpecR == Init /\ [][NextR]_vars
+
 (* ------------------------------------------------------------------ properties *)
 TypeOK ==
     /\ router \in Routers /\ pubd \in BOOLEAN /\ elapsed \in BOOLEAN
@@ -290,4 +310,6 @@ GenInit == /\ router = "gossipsub"
            /\ pubd = FALSE /\ elapsed = FALSE /\ hist = <<>>
 GenNext == ~elapsed /\ Next /\ ~elapsed'
 GenSpec == GenInit /\ [][GenNext]_vars
+GenNextR == ~elapsed /\ NextR /\ ~elapsed'
+GenSpecR == GenInit /\ [][GenNextR]_vars
 =============================================================================
